@@ -113,11 +113,12 @@ def run(ctx):
         "PROVED (Coq, coq/Props/C10.v) on the address-level stack machine model: growValueStack with the FIXED rebasing "
         "(live frames' fp, sp/fp, every upvalue on the open list, each exactly once) leaves the offset view unchanged for every "
         "new base address (C10_grow_invisible); the formulas of the unfixed code do not (C10_grow_old_refuted: negated frame offsets, "
-        "open upvalues not rebased / negated / left in the old array). PROVED ONLY BOUNDED (C10_run_indep_bounded, exhaustive vm_compute "
-        "over traces of <= 6 operations from a 23-operation alphabet): reads are the same for two different initial bases/capacities and "
-        "any placement of growth steps that does not overflow the capacity. TIED TO THE GO CODE at machine level: c10.machine runs seeded "
+        "open upvalues not rebased / negated / left in the old array). PROVED UNBOUNDED (C10_run_indep, via the simulation proof "
+        "C13_refines): for ANY two base addresses and initial capacities and ANY placement of growth steps, two operation sequences "
+        "that are equal once the growth steps are erased, satisfy the closing discipline D and never push beyond the current "
+        "capacity produce the same reads. TIED TO THE GO CODE at machine level: c10.machine runs seeded "
         "operation traces on a real vm.Thread (hook vm/verif_c13.go: push/pop/locals/captureUpvalue/opCloseUpvalues/callBytecodeFunction/"
-        "restoreLastFrame/callBytecodeFunctionTCO/growValueStack, initial stacks of 4-64 slots so the 70% rule fires inside call chains) "
+        "restoreLastFrame/growValueStack (no tail calls: C13), initial stacks of 4-64 slots so the 70% rule fires inside call chains) "
         "and compares reads and the complete offset view with the extracted Coq machine; c10.indep replays every D-respecting trace "
         "without its growth operations on a 4096-slot Thread and requires identical reads. NOT PROVED, only differential-tested (stream "
         "c10.env): everything outside the value stack (thread pool / queue / symbol-table presize / call-stack size), generators and "
@@ -130,7 +131,8 @@ def run(ctx):
     ctx.run_proof_gate()
     # machine level: real vm.Thread (hook vm/verif_c13.go) vs the extracted Coq machine, small initial stacks so that
     # growValueStack runs inside call chains with open upvalues; then the same traces without growth on a big stack
-    c13machine.machine_stream(ctx, name="c10.machine", specname="c10.spec", quick=5000, thorough=300000, indep="c10.indep")
+    c13machine.machine_stream(ctx, name="c10.machine", specname="c10.spec", quick=5000, thorough=300000, indep="c10.indep",
+                                harness_args=("-extra", "notail"))   # tail calls are C13's subject
     elk = vlib.build_elk()
     rng = ctx.rng("c10.env")
     nprog = ctx.n(22, 400)
